@@ -70,7 +70,8 @@ func (c10Sys) Root() *c10State {
 // not make the successor look like an already visited state (its model differs, and Check has to see it)
 func (c10Sys) Digest(s *c10State) [32]byte { return s.w.Digest(s.ctx, []byte(fmt.Sprint(s.b))) }
 
-const c10LongTo = "init1qqqqqqqqqqqqqqqqqqqqqqqqqqqqqqqqqqqqqqqqqqqqqqqqqqqqqqqqqqqqqqqqqqqqqqqqqqqqqq/with spaces and ünïcode"
+// the long recipient begins and ends in white space: what L1 announces is the string as requested, byte for byte
+const c10LongTo = " \tinit1qqqqqqqqqqqqqqqqqqqqqqqqqqqqqqqqqqqqqqqqqqqqqqqqqqqqqqqqqqqqqqqqqqqqqqqqqqqqqq/with spaces and ünïcode \n\t"
 
 // two legal long denoms (an ibc-style hash path) that agree in their first 80 characters
 const c10LongDenomA = "ibc/27394FB092D2ECCD56123C74F36E4C1F926001CEADA9CA97EA622B25F41E5EB2/wrapped-usdc"
